@@ -94,6 +94,7 @@ void harness(void)
 			V_CHECK("deferred: attached => exactly once with the request id marked as reply", IMP(in_attached && in_has_ptr, g_sends == 1 && g_seen_len == in_len && g_seen_first == (old_first | 0x80) && IMP(g_k > 0 && g_k < in_len, g_seen_k == old_k) && g_seen_msg == mp));
 			V_CHECK("deferred: rejected explicit answer => handle kept armed for retry", IMP(g_sends == 1 && in_send_ret < 0 && mp, ret == in_send_ret && dd->data.len == in_len && RDVAL(&dd->data, 0) == old_first && ctx->ref._val == in_ref + 1));
 			V_CHECK("deferred: otherwise handle released, its reference dropped", IMP(!(g_sends == 1 && in_send_ret < 0 && mp), ctx->ref._val == in_ref));
+			V_CHECK("deferred: finishing a handle leaves the still referenced context its transport", IMP(!(g_sends == 1 && in_send_ret < 0 && mp), ctx->reply.send == (in_attached ? h_send : 0) && ctx->reply.ptr == (in_has_ptr ? (void *) &g_token : 0)));
 			/* whatever must still be alive by the contract is released here; the leak check then shows the rest was released by the code, the free model that nothing was released twice */
 			if (g_sends == 1 && in_send_ret < 0 && mp) free(dd);
 			V_CHECK("deferred: original context stays disarmed", ctx->data.len == 0);
